@@ -122,6 +122,7 @@ type fctx struct {
 	fnDecr0 []string // the function's decreases measure at entry
 	modeNoAssigns bool
 	noRecCheck    bool
+	freshGlobals  []string
 }
 
 func (c *fctx) fresh(prefix, sort string) string {
